@@ -235,6 +235,11 @@ def run_shard(spec):
                 # quoted names (git quotes unusual characters) are left out of the expectation by construction of pats
                 args = [r.choice(dirs[1:])] if len(dirs) > 1 and r.random() < 0.5 else ["."]
                 run_case(sh, root, args, ["--use-gitignore"], r, gitignored=ignored, label="gitignore")
+                # ignored and not ignored sources named explicitly, alone and next to a directory
+                named = [f for f in srcs if os.path.normpath(f) in ignored][:2] + r.sample(srcs, min(len(srcs), 2))
+                if named:
+                    run_case(sh, root, named, ["--use-gitignore"], r, gitignored=ignored, label="gitignore_named_files")
+                    run_case(sh, root, named[:1] + args, ["--use-gitignore"], r, gitignored=ignored, label="gitignore_named_files")
             sh.sample({"tree": sorted(files)[:8], "argv": "five random argument lists, none, --use-gitignore"}, cap=1)
         finally:
             shutil.rmtree(root, ignore_errors=True)
